@@ -215,6 +215,36 @@ def fixed_worlds():
     return worlds
 
 
+def gap_worlds():
+    """a file in which a slot in the MIDDLE of a test's sequence is missing (an entry lost in a merge, deleted by
+    hand, a partly committed file) and a run that may not create it (CI, or Update(false)): the k-th call fails
+    with `snapshot not found` and still has consumed its ordinal - the later calls address their own slots"""
+    from gen import cfg_line, mode_line
+    from core import World, hx
+    import suites
+
+    def frame(tid, body):
+        return b'\n[' + tid + b']\n' + body + b'\n---\n'
+    worlds = []
+    for i, (ci, updopt, missing, ncalls) in enumerate([(True, 'none', [2], 3), (False, 'false', [2], 4), (True, 'none', [1, 3], 4), (False, 'false', [2, 3], 5)]):
+        w = World('c03-gap-%d' % i)
+        w.add(mode_line(ci, ''))
+        w.add(cfg_line(1, 'snaps', 'f', None, updopt))
+        content = b''.join(frame(b'TestGap - %d' % k, b'value %d' % k) for k in range(1, ncalls + 1) if k not in missing)
+        content += frame(b'TestOther - 1', b'other')
+        w.add('fsput %s %s' % (hx('snaps/f.snap'), hx(content)))
+        for texec in (1, 2):        # two executions in the process: the second starts at slot 1 again
+            w.add('begin %d %s' % (texec, hx(b'TestGap')))
+            for k in range(1, ncalls + 1):
+                if k in missing:
+                    w.add('snap 1 %d %s' % (texec, hx(b'value %d' % k)), ('missing-slot-fails-without-writing', suites.exp_one_error_no_write))
+                else:
+                    w.add('snap 1 %d %s' % (texec, hx(b'value %d' % k)), ('later-call-keeps-its-slot', suites.exp_silent))
+            w.add('end %d' % texec)
+        worlds.append(w)
+    return worlds
+
+
 def known(w, p):
     if p['kind'] != 'expect':
         return None
@@ -237,5 +267,6 @@ def run(ctx):
         return ('mid',) if g.r.random() < 0.10 else ()
     worlds = [render('c03-%d' % i, make_spec(g, allow_of())) for i in range(n)]
     worlds += fixed_worlds()
+    worlds += gap_worlds()
     run_suite(ctx, 'match.addressing', worlds, known=known, chunk=150)
     findings.report(ctx, 'C03')
